@@ -6,6 +6,43 @@ NOTE = ("Trusted base: Python evaluation order and C3 MRO; documented semantics 
         "not the run-time behaviour (DESIGN.md section 7/8).")
 
 CLAIMS = {
+    "C02": ("ForecastingHorizon conversions interpreted abstractly over a symbolic sorted step vector: to_absolute/to_relative are inverse "
+            "affine maps (cutoff +/- steps), in-/out-of-sample masks partition at step 0 and drive to_in_sample/to_out_of_sample/is_all_*, "
+            "indexer = steps - 1 for relative and absolute horizons, _check_values rejects duplicates / unsupported types and sorts on every "
+            "path, check_fh wraps, rejects empty and enforces relative. Decides the arithmetic and call structure, not pandas' own coercion.", "3/C02"),
+    "C03": ("Where the cutoff is written and from what (only _set_cutoff; last index of the stored / new data; restored in finally), every "
+            "prediction index is built from fh.to_absolute(cutoff) (or delegated index-preservingly), step selection uses steps-1, positional vs "
+            "label access discipline. Structural clauses only; forecast values and finiteness are not decided.", "3/C03"),
+    "C06": ("Metric class-wrapper <-> function conformance (bijection, call signature, role of y_true/y_pred, option forwarding, attribute "
+            "existence per concrete class), role preservation into kernels, weighted/unweighted sibling agreement, name <-> operator table, "
+            "kernel shapes (percentage / relative / asymmetric), declared direction. Numeric values of the formulas are not decided.", "3/C06"),
+    "C07": ("evaluate(): roles of the arguments at the metric call, provenance of everything handed to fit/update/predict (only the training "
+            "window before prediction), order fit-or-update < predict < score < append with exactly one row per split, strategy table, "
+            "validators first. Decides the fold loop's data flow, not numeric equality with an independent run.", "3/C07"),
+    "C08": ("Tuning: ranking direction is the logical negation of greater_is_better (Python bool semantics evaluated for both directions), "
+            "best_* read from one row, a fresh clone per candidate evaluated on the same cv/y/X/scoring/strategy, refit on the full data iff "
+            "refit, every delegating member guarded with a method name and forwarding all arguments.", "3/C08"),
+    "C12": ("No in-place write through a may-alias of caller data (flow-sensitive alias/freshness analysis with joins at merges and "
+            "interprocedural 'mutates parameter k' summaries), components cloned before fitting, randomness only from "
+            "check_random_state(self.random_state), nothing unpicklable stored on self, parallel results consumed positionally. "
+            "Repeatability of values and pickle round trips are not decided.", "3/C12"),
+    "C13": ("Series transformers: transform/inverse duality as symbolic normal forms against an inverse-pair table, index provenance of "
+            "tagged classes, (phase reference, seasonal component) written together, alignment shift as a congruence mod sp, label-vs-position "
+            "discipline, default fit_transform = fit then transform. Numeric round-trip error is not decided.", "3/C13"),
+    "C16": ("Container typestate of every panel entry point (126 resolved class x method pairs, each for a 3d-array and a nested-frame input): "
+            "X is normalised by check_X/check_X_y before container-specific use and later uses match the coercion requested. Equivariance and "
+            "batch-vs-single consistency are relations between executions and are not decided.", "3/C16"),
+    "C17": ("Classifiers: predict decodes the arg-max of the class's own predict_proba through the label table that defines the column order; "
+            "the normaliser of each ensemble equals the number / summed weight of the members iterated; votes land in the column of "
+            "enumerate(classes_); guard and score structure. Probability values are not decided.", "3/C17"),
+    "C18": (".ts writer <-> parser contract decided by interpreting both on symbolic tokens for every writer option combination (header tags "
+            "accepted on every writer path, data-line separators, labels), loader concatenation order for split=None, agreement of the three "
+            "parsers on column naming and label return. Numeric print precision is not decided.", "3/C18"),
+    "C19": ("Benchmark orchestration: skip condition == nothing to write, by exhaustive truth table over the 96 admissible flag/existence "
+            "assignments; every store guarded by its own existence check; save/check/load key agreement in both result stores; fresh clone per "
+            "fold over the full product; registry updated on every loop path; call arities; no deletion. Behaviour under real crashes and "
+            "equality of stored predictions with an independent fit are not decided.", "3/C19"),
+
     "C04": ("Per concrete estimator class (C3 MRO, 156 classes): the constructor chain stores every argument unchanged "
             "(abstract interpretation through super().__init__ chains), no method reachable from fit/apply-type methods "
             "overwrites a constructor parameter, fit sets the fitted flag on every path, returns self and cannot reject "
